@@ -209,6 +209,12 @@ def run_sequence(col, r, root, mode, nreq, seqno):
     os.makedirs(decoy)
     for name, nb in (("base", b), ("local", l), ("remote", rm)):
         write_nb(os.path.join(case, name + ".ipynb"), nb, r)
+    if mode["name"].startswith("mergetool") and r.random() < 0.3:
+        # git hands a merge tool a ZERO-SIZE base file for an add/add conflict; nbmerge and the merge tool session
+        # read it as an empty notebook (server cwd = case directory, process cwd = its parent, name relative)
+        open(os.path.join(case, "base.ipynb"), "w").close()
+        b = json.loads(json.dumps(nbformat.v4.new_notebook()))
+        col.count("mergetool_sessions_with_zero_size_base_file")
     with open(os.path.join(case, "notes.txt"), "w") as f:
         f.write("not a notebook\n")
     with open(os.path.join(decoy, "keep.txt"), "w") as f:
@@ -272,7 +278,13 @@ def run_sequence(col, r, root, mode, nreq, seqno):
             wit = dict(wit0, history=list(history), request={"kind": kind, "method": method, "path": path,
                                                              "body": (body_bytes or b"").decode("utf8", "replace")[:400]})
             outpath = os.path.join(case, "merged-output.ipynb")
-            if kind == "diff-valid":
+            if kind == "diff-valid" and mode["name"] != "difftool" and any(
+                    os.path.exists(os.path.join(case, n)) and os.path.getsize(os.path.join(case, n)) == 0
+                    for n in (json.loads(body_bytes).get("base"), json.loads(body_bytes).get("remote")) if isinstance(n, str)):
+                # /api/diff of a zero-size file: not a notebook, the server may refuse it (only the merge tool session
+                # reads zero-size files as empty notebooks)
+                col.count("diff_request_naming_zero_size_file_not_judged")
+            elif kind == "diff-valid":
                 col.mon("diff_endpoint")
                 if status != 200:
                     col.violation("valid-diff-request-rejected", "status %s: %s" % (status, data[:200]), wit, "diff")
@@ -302,7 +314,8 @@ def run_sequence(col, r, root, mode, nreq, seqno):
                     col.violation("valid-merge-request-rejected", "status %s: %s" % (status, data[:200]), wit, "merge")
                 else:
                     ans = json.loads(data)
-                    nbs = [nbformat.read(os.path.join(case, n + ".ipynb"), as_version=4) for n in ("base", "local", "remote")]
+                    nbs = [nbformat.read(os.path.join(case, n + ".ipynb"), as_version=4) if os.path.getsize(os.path.join(case, n + ".ipynb")) else nbformat.v4.new_notebook()
+                           for n in ("base", "local", "remote")]
                     want = nbd.decide_notebook_merge(nbs[0], nbs[1], nbs[2], merge_args({"merge": "mergetool", "input": None, "output": None, "ignore_transients": True}))
                     nbd.quiet_logging()
                     if canon(ans["merge_decisions"]) != canon(to_plain(want)):
